@@ -94,6 +94,7 @@ fn predict(core: &Core, block: bool) -> (u32, u16, u32, bool, bool, bool) {
 
 fn check_program(core: &mut Core, regime: Regime, name: &str, ctx: &mut Ctx) {
   let mut prev_dispatch = false;
+  let mut clock_lost = false;
   for step in 0..STEPS {
     let run_before = world::run_code(&core.run_state);
     let ime_before = world::ime_code(&core.interrupts_enabled);
@@ -135,6 +136,7 @@ fn check_program(core: &mut Core, regime: Regime, name: &str, ctx: &mut Ctx) {
     let pc_ok = dispatched || halted || pc_after == want_pc;
     if trust && pc_ok {
       if dp != want {
+        clock_lost = true;
         let key = format!("C09 regime={} clock=ppu kind={}", regime_name(regime), if halted { "halted-step" } else if prev_dispatch { "after-dispatch" } else { "run-step" });
         ctx.violation(&key, || {
           J::obj()
@@ -211,9 +213,13 @@ fn check_program(core: &mut Core, regime: Regime, name: &str, ctx: &mut Ctx) {
     }
     prev_dispatch = dispatched;
   }
-  // run_frame terminates within two frame periods plus one block
+  // run_frame terminates within two frame periods plus one block (not asked of a program
+  // whose LCD clock has already been reported as wrong: run_frame polls that clock)
+  if clock_lost {
+    return;
+  }
   let (p0, d0) = (ppu_clock(core), div_clock(core));
-  unsafe { libc::alarm(30) };
+  unsafe { libc::alarm(10) };
   let framed = std::panic::catch_unwind(std::panic::AssertUnwindSafe(|| core.run_frame()));
   unsafe { libc::alarm(0) };
   if let Err(e) = framed {
@@ -284,7 +290,7 @@ fn acc_rom() -> Vec<u8> {
 
 pub fn run_accounting(regime: Regime, workers: usize) -> PoolResult {
   let total = 32u64 * 32; // case = (IF, IE); inner: SP x PC x halted x IME
-  let opts = PoolOpts { workers, chunk: 8, bitmap_bits: 1 << 12, samples_per_child: 1, ..PoolOpts::default() };
+  let opts = PoolOpts { workers, chunk: 8, bitmap_bits: 1 << 12, samples_per_child: 1, max_crashes: 4, ..PoolOpts::default() };
   run_pool(
     total,
     &opts,
@@ -379,7 +385,7 @@ pub fn run_accounting(regime: Regime, workers: usize) -> PoolResult {
 
 pub fn run_regime(image: &str, tier: &str, stage: usize, regime: Regime, workers: usize) -> (c04::Plan, PoolResult) {
   let pl = c04::plan(tier, stage);
-  let opts = PoolOpts { workers, chunk: 4, bitmap_bits: 1 << 12, samples_per_child: 1, ..PoolOpts::default() };
+  let opts = PoolOpts { workers, chunk: 4, bitmap_bits: 1 << 12, samples_per_child: 1, max_crashes: 4, ..PoolOpts::default() };
   let img = image.to_string();
   let r = run_pool(
     pl.total,
